@@ -78,6 +78,9 @@ def c12_jobs(tier):
         # the number-token scanner has a separate character class in NaN / Infinity builds
         Job('deser-nan-inf', 'c12', 'deser', q(tier, 100000, 5000000), defines={'ARDUINOJSON_ENABLE_NAN': 1, 'ARDUINOJSON_ENABLE_INFINITY': 1, 'ARDUINOJSON_ENABLE_COMMENTS': 1}),
         Job('print-float-cfg', 'c12', 'print-f64', q(tier, 5000, 200000), defines={'ARDUINOJSON_USE_DOUBLE': 0}),
+        # power-of-ten tables read through the flash-memory accessors (ARDUINOJSON_ENABLE_PROGMEM=1 with the faulting flash-pointer shim)
+        Job('deser-progmem', 'c12', 'deser', q(tier, 60000, 3000000), shim=True),
+        Job('print-progmem', 'c12', 'print-f64', q(tier, 6000, 300000), shim=True, flavour='asan2'),
         Job('print-thresholds', 'c12', 'print-f64', q(tier, 10000, 500000), flavour='asan2', defines={'ARDUINOJSON_POSITIVE_EXPONENTIATION_THRESHOLD': '1e3', 'ARDUINOJSON_NEGATIVE_EXPONENTIATION_THRESHOLD': '1e-2'}),
     ]
 
@@ -462,6 +465,10 @@ def c11_jobs(tier):
         Job('msgpack', 'c11', 'msgpack', q(tier, 250000, 15000000), timeout=q(tier, 900, 7200)),
         Job('json-tiny', 'c11', 'json', q(tier, 30000, 1000000), defines={'ARDUINOJSON_POOL_CAPACITY': 4, 'ARDUINOJSON_SLOT_ID_SIZE': 2, 'ARDUINOJSON_DEBUG': 1, 'ARDUINOJSON_ENABLE_COMMENTS': 1}),
         Job('msgpack-tiny', 'c11', 'msgpack', q(tier, 30000, 1000000), defines={'ARDUINOJSON_POOL_CAPACITY': 4, 'ARDUINOJSON_SLOT_ID_SIZE': 2, 'ARDUINOJSON_DEBUG': 1}),
+        # skip routines that depend on the configured number types and on the string-length width
+        Job('msgpack-float', 'c11', 'msgpack', q(tier, 60000, 2000000), defines={'ARDUINOJSON_USE_DOUBLE': 0, 'ARDUINOJSON_STRING_LENGTH_SIZE': 1}),
+        Job('json-float', 'c11', 'json', q(tier, 30000, 1000000), defines={'ARDUINOJSON_USE_DOUBLE': 0, 'ARDUINOJSON_ENABLE_NAN': 1, 'ARDUINOJSON_ENABLE_INFINITY': 1}),
+        Job('msgpack-no-long-long', 'c11', 'msgpack', q(tier, 30000, 1000000), defines={'ARDUINOJSON_USE_LONG_LONG': 0, 'ARDUINOJSON_STRING_LENGTH_SIZE': 4}),
     ]
 
 
